@@ -114,6 +114,7 @@ type FS struct {
 	Umask     fs.FileMode
 	Gate      func() // called at the entry of every os-level operation, before the lock is taken (interleaving of "processes")
 	tmpCtr    int
+	Mounts    []string // real paths of directories that are other devices (rename/link across: EXDEV)
 }
 
 // Cur is the file system the os-named entry points operate on.
@@ -684,7 +685,7 @@ func (f *FS) Clone() *FS {
 func (f *FS) cloneLocked() (*FS, map[*inode]*inode) {
 	c := &FS{nextIno: f.nextIno, Cwd: f.Cwd, KeepLog: f.KeepLog, KeepBytes: f.KeepBytes, Fired: map[string]int{},
 		CrashMode: f.CrashMode, Choose: f.Choose, Now: f.Now, Enforce: f.Enforce, Umask: f.Umask, pendSeq: f.pendSeq,
-		tmpCtr: f.tmpCtr, Frozen: f.Frozen}
+		tmpCtr: f.tmpCtr, Frozen: f.Frozen, Mounts: append([]string(nil), f.Mounts...)}
 	m := map[*inode]*inode{}
 	var cp func(n *inode) *inode
 	cp = func(n *inode) *inode {
@@ -840,6 +841,25 @@ func (f *FS) PutDir(path string, perm fs.FileMode) {
 		cur = n
 	}
 	cur.perm = perm
+}
+
+// Mount makes path (created if missing, durable) the root of another device: rename and link
+// between it and the rest fail with EXDEV. Everything else (durability model, crash images)
+// is the same on all devices.
+func (f *FS) Mount(path string) {
+	f.PutDir(path, 0o755)
+	f.Mounts = append(f.Mounts, path)
+}
+
+// devOf: index+1 of the longest mount point that contains the real path, 0 for the root device.
+func (f *FS) devOf(real string) int {
+	best, dev := -1, 0
+	for i, m := range f.Mounts {
+		if (real == m || strings.HasPrefix(real, m+"/")) && len(m) > best {
+			best, dev = len(m), i+1
+		}
+	}
+	return dev
 }
 
 // PutSymlink creates a symlink, durable.
